@@ -3,6 +3,7 @@
 //! exit 0 = held on everything explored, 1 = VIOLATION, 2 = machinery failure
 #[macro_use]
 mod common;
+mod ambient;
 mod c01;
 mod c02;
 mod c03;
@@ -63,6 +64,7 @@ fn main() {
     if let Err(e) = exact::self_test() {
         machinery(&format!("exact arithmetic self-test failed: {e}"));
     }
+    set_ambient(ambient::alphabet());
     let id = args[1].as_str();
     let seed: u64 = std::env::var("VERIF_SEED").ok().and_then(|s| s.parse().ok()).unwrap_or(0);
     let r = std::panic::catch_unwind(|| match args[2].as_str() {
